@@ -22,9 +22,9 @@ def gen_tokens(rng):
             c = mml.gen_cmds(rng, 1, 1, top=True)
             for cmd in c: toks.append(mml.pr([cmd]))
         elif x < 0.6: toks.append(rng.choice(["y7,100;", "y10,%d;" % rng.randint(0, 127), "V(90)", "EP(%d)" % rng.randint(0, 127), "@%d;" % rng.randint(1, 128), "Tempo(%d)" % rng.randint(60, 200), "P(64)"]))
-        elif x < 0.7: toks.append(rng.choice(["INT A=3;", "INT B=A+1;", "PRINT(A);", "A=A+1;", "IF(A>2){ c }", "FOR(INT I=0;I<2;I++){ d }", "TIME(2:1:0)", "KeyShift(1)"]))
+        elif x < 0.7: toks.append(rng.choice(["INT A=3;", "INT B=A+1;", "PRINT(A);", "A=A+1;", "IF(A>2){ c }", "FOR(INT I=0;I<2;I++){ d }", "TIME(2:1:0)", "KeyShift(1)", "FUNCTION FZ(){ e }", "FZ()", "FZ();", "FUNCTION FZ(){ e }"]))
         elif x < 0.8: toks.append(rng.choice(["#M={c d}", "#M", "STR S2={e f};", "S2", "Sub{c e}", "[2 c d]", "{c d e}4", "'ceg'2"]))
-        elif x < 0.9: toks.append(rng.choice(["c", "d8", "r4", "l8", "o5", "v100", "q90", ">", "<", "n60,4", "g2^8"]))
+        elif x < 0.9: toks.append(rng.choice(["c", "d8", "r4", "l8", "o5", "v100", "q90", ">", "<", "n60,4", "g2^8", "c#", "f#8", "d#", "a#4"]))     # a written sharp before the next separator
         else:
             # an expression-valued argument closed by nothing but the line break (marked with a trailing NUL), often followed by a command
             # that starts with a character that is an operator inside expressions
@@ -33,7 +33,14 @@ def gen_tokens(rng):
         if rng.random() < 0.08:
             # ... also inside a loop, right before the loop-break ':' (which is an argument separator inside expressions)
             toks += ["[%d" % rng.randint(2, 3), rng.choice(["c", "d8 e"]), rng.choice(["Tempo=%d" % rng.randint(60, 200), "@%d" % rng.randint(1, 128), "TR=1", "v=%d" % rng.randint(1, 127), "y7,%d" % rng.randint(0, 127)]) + "\0", ":", rng.choice(["g", "a b"]), "]"]
-    return [t for t in toks if t]
+    toks = [t for t in toks if t]
+    if rng.random() < 0.06:
+        # a written sharp, later a function definition, and a call of that function: whether the definition is found must not depend on
+        # what else is written on its line
+        i = rng.randrange(0, len(toks) + 1); toks.insert(i, rng.choice(["c#", "f#8", "d#", "g#4"]))
+        j = rng.randrange(i + 1, len(toks) + 1); toks.insert(j, "FUNCTION FY(){ g }")
+        toks.insert(rng.randrange(0, len(toks) + 1), rng.choice(["FY()", "FY();"]))
+    return toks
 
 NL_SEPS = ["\n", "\r\n", "\n\n", " \n", "\t\n ", " //%s\n", "\t// %s\n", " /*%s*/\n", "\n##%s\n", "\n# %s\n", "\n#-%s\n"]
 
